@@ -335,11 +335,28 @@ var pathoFlat = []string{"|", ";", "!", "'", "\"", "`", "\\", "0x", "1e", ".", "
 func genTotalCase(rt *rapid.T) (string, map[string]string, string) {
 	g := gen.NewG(rt, gen.Cfg{MaxDepth: 3, MaxOps: 4, JoinDepth: 2, Lets: true, Hostile: true})
 	var src, class string
-	switch k := rapid.IntRange(0, 13).Draw(rt, "class"); {
+	switch k := rapid.IntRange(0, 14).Draw(rt, "class"); {
+	case k == 14:
+		// a program with one documented misuse planted, cut off after any token
+		g2 := gen.NewG(rt, gen.Cfg{MaxDepth: 2, MaxOps: 4, JoinDepth: 2, Lets: true, Compilable: true})
+		prog := g2.Program()
+		plant(rt, g2, prog, rapid.SampledFrom(plantKinds).Draw(rt, "plant"))
+		toks := gen.Print(prog).Toks
+		if len(toks) > 1 && rapid.IntRange(0, 3).Draw(rt, "cut") > 0 {
+			toks = toks[:rapid.IntRange(1, len(toks)).Draw(rt, "cutat")]
+		}
+		src, class = gen.Layout(gen.TokensOnly(toks), nil).Src, "planted-misuse-truncated"
 	case k == 13:
-		// every built-in with every small number of arguments, in every
-		// expression position
-		name := rapid.SampledFrom(gen.BuiltinNames).Draw(rt, "builtin")
+		// every built-in (and every word the compiler's source mentions: a
+		// function a change adds is in there) with every small number of
+		// arguments, in every expression position
+		names := append([]string{}, gen.BuiltinNames...)
+		for _, w := range sourceWords() {
+			if len(w) >= 3 && strings.Trim(w, "abcdefghijklmnopqrstuvwxyz_0123456789") == "" && w[0] >= 'a' {
+				names = append(names, w)
+			}
+		}
+		name := rapid.SampledFrom(names).Draw(rt, "builtin")
 		nargs := rapid.IntRange(0, 5).Draw(rt, "nargs")
 		args := make([]string, nargs)
 		for i := range args {
